@@ -269,7 +269,9 @@ def job_cookie(job) -> report.JobResult:
 
     def fn():
         r = WR.Response() if job.get("iface", "wsgi") == "wsgi" else AR.Response()
-        if job.get("reassign"):
+        if job.get("delete"):
+            r.delete_cookie(name)  # deleting is setting an expired cookie of that NAME: the name is escaped like any other
+        elif job.get("reassign"):
             # the cookie is queued with plain token text first; name / value are public attributes and are re-assigned before sending
             r.set_cookie("sid", "abc", **attrs)
             r.cookies[-1].name = name
@@ -296,14 +298,15 @@ def job_cookie(job) -> report.JobResult:
             if any_bad(e, its):
                 raise Fail("control-character-in-set-cookie")
             # attribute structure: the name=value pair may not contribute any ';' or ',' separator
-            exp = Cookie("x", "y", **{kk: vv for kk, vv in job.get("cookie_attrs", {}).items()})
-            exp_semis = str(Cookie("x", "y", path="/", **job.get("cookie_kw", {}))).count(";")
+            exp_semis, exp_commas = str(Cookie("x", "y", path="/", **job.get("cookie_kw", {}))).count(";"), 0
+            if job.get("delete"):  # an expired cookie carries expires=<date with one comma>; max-age=0
+                exp_semis, exp_commas = 4, 1
             sym_sep = [z3.Or(term_of(c) == 59, term_of(c) == 44) for c in its if isinstance(c, SInt)]
             if sym_sep and e.check(z3.Or(sym_sep)):
                 raise Fail("separator-injected-by-name-or-value", "a symbolic character can be ';' or ',' in the emitted line")
             conc_semis = sum(1 for c in its if not isinstance(c, SInt) and c == 59)
             conc_commas = sum(1 for c in its if not isinstance(c, SInt) and c == 44)
-            if conc_semis != exp_semis or conc_commas != 0:
+            if conc_semis != exp_semis or conc_commas != exp_commas:
                 raise Fail("attribute-count-changed", f"{conc_semis} ';' (expected {exp_semis}), {conc_commas} ','")
             if any(isinstance(c, SInt) and e.check(z3.Or(term_of(c) < 32, term_of(c) == 127)) for c in its):
                 raise Fail("raw-control-character-in-set-cookie")
@@ -312,7 +315,7 @@ def job_cookie(job) -> report.JobResult:
         if klass in (None, "twin-assert-false", "attribute-count-changed", "set-cookie-count") or (klass or "").startswith("exception"):
             e.last_sat = False
         m = e.witness()
-        wit = {"name": conc(name, m), "value": conc(value, m), "kw": job.get("cookie_kw", {}), "reassign": bool(job.get("reassign"))}
+        wit = {"name": conc(name, m), "value": conc(value, m), "kw": job.get("cookie_kw", {}), "reassign": bool(job.get("reassign")), "delete": bool(job.get("delete"))}
         with shims.off():
             cp = concrete_cookie(wit)
         if klass is not None:
@@ -333,7 +336,9 @@ def job_cookie(job) -> report.JobResult:
 def concrete_cookie(w) -> Optional[str]:
     r = WR.Response()
     try:
-        if w.get("reassign"):
+        if w.get("delete"):
+            r.delete_cookie(w["name"])
+        elif w.get("reassign"):
             r.set_cookie("sid", "abc", **w.get("kw", {}))
             r.cookies[-1].name, r.cookies[-1].value = w["name"], w["value"]
         else:
@@ -346,8 +351,15 @@ def concrete_cookie(w) -> Optional[str]:
     if any(ord(c) < 32 or ord(c) == 127 for c in line):
         return f"raw control character in {line!r}"
     r2 = WR.Response()
-    r2.set_cookie("x", "y", **w.get("kw", {}))
+    if w.get("delete"):
+        r2.delete_cookie("x")
+    else:
+        r2.set_cookie("x", "y", **w.get("kw", {}))
     base = [v for k, v in r2.list_headers(as_bytes=False) if k == "set-cookie"][0]
+    if w.get("delete"):
+        if line.count(";") != base.count(";") or line.count(",") != base.count(","):
+            return f"separator count differs: {line!r} vs {base!r}"
+        return None
     if line.count(";") != base.count(";") or "," in line.replace(base.split(";", 1)[1] if ";" in base else "", ""):
         return f"separator count differs: {line!r} vs {base!r}"
     return None
@@ -495,6 +507,8 @@ def jobs(tier: str):
         for lv in range(0, b["cookie_value_len_max"] + 1):
             out.append(dict(name=f"cookie/n{ln}v{lv}", kind="cookie", ln=ln, lv=lv, weight=5 ** (ln + lv)))
     out.append(dict(name="cookie/asgi/n1v2", kind="cookie", ln=1, lv=2, iface="asgi"))
+    for ln in (1, 2, 3):
+        out.append(dict(name=f"cookie/deleted/n{ln}", kind="cookie", ln=ln, lv=0, delete=True, weight=5 ** ln))
     for ln, lv in ((0, 2), (1, 1), (1, 2), (2, 1)):
         out.append(dict(name=f"cookie/reassigned/n{ln}v{lv}", kind="cookie", ln=ln, lv=lv, reassign=True, weight=5 ** (ln + lv)))
     out.append(dict(name="cookie/attrs/n1v1", kind="cookie", ln=1, lv=1, attrs={"max_age": 10, "secure": True, "httponly": True, "domain": "e.org"},
